@@ -846,6 +846,9 @@ func (s *State) extendFunctionEnv(
 		}
 	}
 	if fn.Variadic {
+		for i, e := range extra {
+			extra[i] = object.Value(e) // like the named parameters: values, not references to the caller's variables.
+		}
 		env.SetNoChecks("..", object.NewArray(extra), true)
 	}
 	// Recursion is handle specially in Get (defining "self" and the function name in the env)
